@@ -183,3 +183,45 @@ Proof.
   unfold parse_id. destruct (Nlen s <? ID_MIN_LEN); [right; reflexivity|]. destruct (negb _); [right; reflexivity|].
   destruct (parse_u32 _); [left; eauto|right; reflexivity].
 Qed.
+
+(* ---------------- the rendering, exactly ---------------- *)
+
+Lemma dval_split l : forall acc, dval l acc = acc * 10 ^ N.of_nat (length l) + dval l 0.
+Proof.
+  induction l as [|d t IH]; intros acc; cbn [dval length]; [cbn; lia|].
+  rewrite (IH (acc * 10 + (d - 48))), (IH (0 * 10 + (d - 48))).
+  rewrite Nat2N.inj_succ, N.pow_succ_r'. lia.
+Qed.
+
+Lemma dval_lt l : Forall is_digit l -> dval l 0 < 10 ^ N.of_nat (length l).
+Proof.
+  induction l as [|d t IH]; intros H; cbn [dval length]; [cbn; lia|].
+  inversion H as [|? ? Hd Ht]; subst. specialize (IH Ht). unfold is_digit in Hd.
+  rewrite dval_split. rewrite Nat2N.inj_succ, N.pow_succ_r'.
+  assert (0 < 10 ^ N.of_nat (length t)) by (apply N.neq_0_lt_0, N.pow_nonzero; lia). nia.
+Qed.
+
+(* Display: "HP:" followed by the decimal digits of the number, padded with zeros to exactly seven digits
+   inside the id space and written without a leading zero beyond it *)
+Theorem show_padded_decimal n : n <= U32_MAX -> exists ds,
+  show n = [72; 80; 58] ++ ds /\ Forall is_digit ds /\ dval ds 0 = n /\
+  (n < 10000000 -> length ds = 7%nat) /\
+  (10000000 <= n -> exists d t, ds = d :: t /\ d <> 48).
+Proof.
+  intros Hmax. exists (digits (width n) n).
+  pose proof (parse_digits_digits (width n) n (width_bound n Hmax) Hmax) as Hp.
+  apply parse_digits_spec in Hp as (Hd & Hv & _).
+  split; [reflexivity|]. split; [exact Hd|]. split; [symmetry; exact Hv|]. split.
+  - intros Hlt. rewrite digits_length. unfold width. change (N.to_nat ID_PAD) with 7%nat.
+    destruct (N.ltb_spec n 10000000); [reflexivity|lia].
+  - intros Hge. destruct (digits_head (width n) n ltac:(pose proof (width_ge n); lia)) as [d [t [E _]]].
+    exists d, t. split; [exact E|]. intros ->.
+    rewrite E in Hv, Hd. cbn [dval] in Hv. change (0 * 10 + (48 - 48)) with 0 in Hv.
+    pose proof (dval_lt t (Forall_inv_tail Hd)) as Hlt. rewrite <- Hv in Hlt.
+    assert (length t = (width n - 1)%nat) as El.
+    { pose proof (digits_length (width n) n) as L. rewrite E in L. cbn [length] in L. lia. }
+    rewrite El in Hlt. unfold width in Hlt. change (N.to_nat ID_PAD) with 7%nat in Hlt.
+    destruct (N.ltb_spec n 10000000); [lia|].
+    destruct (N.ltb_spec n 100000000); [cbn in Hlt; lia|].
+    destruct (N.ltb_spec n 1000000000); cbn in Hlt; lia.
+Qed.
